@@ -1126,7 +1126,6 @@ func (w *modfileWorld) Record(rng *rand.Rand, n int, emit func(k string, in, obs
 	}
 }
 
-
 // ---- E3 for C16: random larger files and requests ----
 
 func init() { core.Register("modfilebulk", func() core.World { return &modfileBulkWorld{} }) }
